@@ -1,0 +1,15 @@
+//go:build verif
+
+package codegen
+
+import "github.com/HobbyOSs/gosk/pkg/ocode"
+
+// VerifOcodeHook is installed by the verification worker (build tag verif).
+// It fires once per ocode, after its bytes were computed and before they are appended.
+var VerifOcodeHook func(oc ocode.Ocode, ctx *CodeGenContext, off int, code []byte, err error)
+
+func verifOcode(oc ocode.Ocode, ctx *CodeGenContext, off int, code []byte, err error) {
+	if VerifOcodeHook != nil {
+		VerifOcodeHook(oc, ctx, off, code, err)
+	}
+}
